@@ -68,13 +68,23 @@ impl SwInst {
     fn single() -> Box<dyn Inst> {
         Box::new(SwInst { sws: vec![ArcSendWaker::new()], all: None, flags: [0; 2], need: [None; 2] })
     }
-    fn fanout() -> Box<dyn Inst> {
+    fn fanout_with(rotated: bool) -> Box<dyn Inst> {
         let all = ArcSendWakers::new();
         let sws = vec![ArcSendWaker::new(), ArcSendWaker::new()];
         for (i, sw) in sws.iter().enumerate() {
             all.insert(pathway(i as u16), sw);
         }
+        if rotated {
+            // an earlier, unrelated notification: the round-robin cursor of wake_all_by is no longer at its initial value
+            all.wake_all_by(Signals::PING);
+        }
         Box::new(SwInst { sws, all: Some(all), flags: [0; 2], need: [None; 2] })
+    }
+    fn fanout() -> Box<dyn Inst> {
+        Self::fanout_with(false)
+    }
+    fn rotated() -> Box<dyn Inst> {
+        Self::fanout_with(true)
     }
 }
 
@@ -676,8 +686,10 @@ pub fn specs() -> Vec<Spec> {
     vec![
         Spec { name: "ArcSendWaker", classes: &["sw1"], make: SwInst::single,
                binds: "check = harness flags (outside the lock); wait = ArcSendWaker::wait_for(signals) polled once; notify = wake_by" },
-        Spec { name: "ArcSendWakers", classes: &["sw2"], make: SwInst::fanout,
+        Spec { name: "ArcSendWakers", classes: &["sw2", "sw2ab"], make: SwInst::fanout,
                binds: "one ArcSendWaker per task inserted under its Pathway; notify = ArcSendWakers::wake_all_by" },
+        Spec { name: "ArcSendWakers/rotated", classes: &["sw2", "sw2ab"], make: SwInst::rotated,
+               binds: "as above, after an earlier wake_all_by(PING) (round-robin cursor not at its initial value)" },
         Spec { name: "AsyncDeque/push_back", classes: SLOT1, make: || Box::new(Deque { q: ArcAsyncDeque::new(), how: 0 }),
                binds: "poll = poll_pop; set = push_back; close = close" },
         Spec { name: "AsyncDeque/push_front", classes: SLOT1, make: || Box::new(Deque { q: ArcAsyncDeque::new(), how: 1 }),
